@@ -80,7 +80,7 @@ def _spd6(r, tlo, thi, rlo, rhi):
     return X
 
 
-def gen_struct(r, dim, N, iface_nodes_pos, damp, nonsym_k=False):
+def gen_struct(r, dim, N, iface_nodes_pos, damp, nonsym_k=False, dashpot_body=False):
     """One free-free substructure whose first len(iface_nodes_pos) nodes sit at the
     given positions (the interface nodes).  Returns physical M, B, K and node positions."""
     import numpy as np
@@ -115,6 +115,20 @@ def gen_struct(r, dim, N, iface_nodes_pos, damp, nonsym_k=False):
             c6 = c6 * (1 + 0.3j * r.uniform(-1, 1)) + 0.2j * np.abs(c6) * \
                 r.uniform(-1, 1, (6, 6))
         cel.append((i, j, c, c6))
+    if dashpot_body and damp != "prop":
+        # one more body, tied to the structure through a viscous joint ONLY: the
+        # stiffness null space is then larger than the set of undamped rigid-body
+        # modes (0 is a defective eigenvalue of the state matrix); the response at
+        # f > 0 is perfectly well defined all the same
+        j = int(r.integers(len(iface_nodes_pos), N)) if N > len(iface_nodes_pos) \
+            else int(r.integers(0, N))
+        p = pos[j] + r.uniform(-0.5, 0.5, 3)
+        if dim == 3:
+            p[2] = 0.0
+        pos.append(p)
+        c = (pos[j] + p) / 2
+        cel.append((j, N, c, _spd6(r, 5.0, 200.0, 0.5, 20.0)))
+        N += 1
     K = nt.assemble(pos, kel, dim)
     alpha = None
     if damp == "prop":
@@ -194,8 +208,9 @@ def gen_pair(seed, i):
     fload = FORMS_LOAD[(i // 5) % len(FORMS_LOAD)]
     if noq and (i // 7) % 4 != 3:
         fload = "cb-pv"          # every DOF a boundary DOF: cbtf's branch without a q-set
+    dash = bool(fsrc == "phys-drm" and damp in ("elements", "gyro") and i % 4 == 1)
     Ms, Bs, Ks, ps, als = gen_struct(r, dim, max(Ns, 2), ipos, damp,
-                                     nonsym_k=fsrc == "nonsym-k")
+                                     nonsym_k=fsrc == "nonsym-k", dashpot_body=dash)
     if noq:
         Ml, Bl, Kl, pl, all_ = _lump_only(r, dim, ipos)
     else:
@@ -213,9 +228,10 @@ def gen_pair(seed, i):
         Ko = (Ko + Ko.T) / 2
         w = np.linalg.eigvalsh(Ko)
         return bool(w.min() > 1e-7 * w.max())
-    determinate = (rr == nrb and nif_nodes == 1) or (dim == 1 and rr == 1)
+    determinate = ((rr == nrb and nif_nodes == 1) or (dim == 1 and rr == 1)) and not dash
     us = 1.0
     return dict(i=i, dim=dim, r=rr, damp=damp, iface=iface, noq=noq, unit_scale=us,
+                dashpot_body=dash,
                 S=(Ms, Bs, Ks), L=(Ml, Bl, Kl), bs=bs, bl=bl, pos_s=ps, pos_l=pl,
                 fsrc=fsrc, fload=fload, nrb=nrb, determinate=determinate,
                 alpha_s=als, alpha_l=all_,
@@ -422,11 +438,18 @@ def route_error(np, O, f, freq):
         return "AM", E
     # recovery-matrix forms: SolveUnc(pre_eig=True)
     w, phi = eigh((K + K.T).real / 2, (M + M.T).real / 2)
-    el = np.nonzero(np.abs(w) >= 0.005)[0]
+    Bfull = phi.T @ B @ phi
+    # modes that go through the complex eigen-solution: all but the rigid-body modes of
+    # the documented rule (stiffness AND damping rows/columns below 0.005); a mode without
+    # stiffness but with damping (a body held by a dashpot only) is one of them, and the
+    # eigenvector conditioning it brings is part of the route's error
+    lowk = np.abs(w) < 0.005
+    lowb = (np.abs(Bfull).max(axis=0) < 0.005) & (np.abs(Bfull).max(axis=1) < 0.005)
+    el = np.nonzero(~(lowk & lowb))[0]
     if el.size == 0:
         return "H", E
     E = E.copy()
-    Bm = (phi.T @ B @ phi)[np.ix_(el, el)]
+    Bm = Bfull[np.ix_(el, el)]
     if isdiag(Bm):
         return "H", E
     Tm = (T @ phi)[:, el]
@@ -460,6 +483,8 @@ class PairRef:
         self.selfgap = 0.0
         sA = np.zeros((r, nf))
         sF = np.zeros((r, nf))
+        floorA = np.zeros(nf)
+        EPS_LD = float(np.finfo(np.longdouble).eps)
         sS = np.zeros((r, nf, r))
         sL = np.zeros((r, nf, r))
         rp = core.rng(*rkey)
@@ -481,6 +506,13 @@ class PairRef:
                                            np.abs(F - F2).max() / sc[1])
                         A, F = A2, F2
                     self.A[:, j], self.F[:, j] = A, F
+                    # accuracy of the ORACLE itself: free and coupled accelerations are
+                    # refined in extended precision (eps 1.1e-19) relative to the largest
+                    # acceleration anywhere in the source, so an interface that moves
+                    # 1e-10 of the interior is known to 1e-9 only
+                    amax = Wj ** 2 * float(np.abs(np.linalg.solve(
+                        nt.dyn(S[0], S[1], S[2], Wj), f.astype(complex))).max())
+                    floorA[j] = 16 * EPS_LD * amax
                     SAM, LAM, An, Fn = _nt_eval(np, nt, S, L, self.As[:, j], Wj)
                     self.SAM[:, j, :], self.LAM[:, j, :] = SAM, LAM
                     Rn = np.diag(np.linalg.solve(SAM + LAM, SAM))
@@ -529,9 +561,14 @@ class PairRef:
                 except np.linalg.LinAlgError:
                     dA[:, j] = dF[:, j] = np.inf
                     continue
-                dA[:, j] = Ti @ (dS[:, j, :] @ np.abs(self.As[:, j] - self.A[:, j])
-                                 + dL[:, j, :] @ np.abs(self.A[:, j]))
-                dF[:, j] = dL[:, j, :] @ np.abs(self.A[:, j]) \
+                # admissible error of the apparent masses = route model + the conditioned
+                # round-off part their own monitors allow (base_tol*); whatever SAM / LAM
+                # may be off by propagates into A and F through the documented formula
+                ES = dS[:, j, :] + self.base_tolS[j]
+                EL = dL[:, j, :] + self.base_tolL[j]
+                dA[:, j] = Ti @ (ES @ np.abs(self.As[:, j] - self.A[:, j])
+                                 + EL @ np.abs(self.A[:, j]))
+                dF[:, j] = EL @ np.abs(self.A[:, j]) \
                     + np.abs(self.LAM[:, j, :]) @ dA[:, j]
                 Mr = np.linalg.solve(self.SAM[:, j, :] + self.LAM[:, j, :],
                                      self.SAM[:, j, :])
@@ -539,11 +576,15 @@ class PairRef:
                                          + dL[:, j, :] @ np.abs(Mr)))
             self.tolS = self.tolS + dS.max(axis=(0, 2))
             self.tolL = self.tolL + dL.max(axis=(0, 2))
-            self.tolA = self.tolA + dA.max(axis=0)
-            self.tolF = self.tolF + dF.max(axis=0)
+            floorA = np.where(np.isfinite(floorA), floorA, 0.0)
+            self.oracle_floorA = floorA
+            self.tolA = self.tolA + dA.max(axis=0) + floorA
+            self.tolF = self.tolF + dF.max(axis=0) \
+                + np.abs(self.LAM).sum(axis=2).max(axis=0) * floorA
             self.tolR = np.where(np.isfinite(dR.max(axis=0)), self.tolR + dR.max(axis=0), 0.0)
             # frequencies where that model allows more than 1e-6 are refused
-            for t_, ref_, amp_ in ((dS.max(axis=(0, 2)), np.abs(self.SAM).max(axis=(0, 2)),
+            for t_, ref_, amp_ in ((floorA, np.abs(self.A).max(axis=0), "ampA"),
+                                   (dS.max(axis=(0, 2)), np.abs(self.SAM).max(axis=(0, 2)),
                                     "ampS"),
                                    (dL.max(axis=(0, 2)), np.abs(self.LAM).max(axis=(0, 2)),
                                     "ampL"),
@@ -607,6 +648,10 @@ class Routes:
                 else:
                     outer.sh.count("route:SolveUnc-other-construct")
                 super().__init__(*a, **k)
+                if k.get("pre_eig"):
+                    pc = getattr(self, "pc", None)
+                    if pc is not None and getattr(pc, "eig_success", True) is False:
+                        outer.last.append("SolveUnc:eig-failed")
 
         class FreqDirectC(FD):
             def __init__(self, *a, **k):
@@ -710,6 +755,8 @@ def run_pair(sh, np, nt, O, frclim, routes, i):
         sh.count(k_)
     if p["noq"]:
         sh.count("cell:load-without-interior-dof")
+    if p.get("dashpot_body"):
+        sh.count("cell:source-with-dashpot-only-body")
     if fs_.get("unsorted") or fl_.get("unsorted"):
         sh.count("cell:unsorted-bset")
     if p["noq"] and fl_.get("unsorted"):
@@ -936,14 +983,80 @@ def run_pair(sh, np, nt, O, frclim, routes, i):
                 with warnings.catch_warnings():
                     warnings.simplefilter("ignore")
                     with np.errstate(all="ignore"):
+                        # 0 Hz anywhere in the vector (first, last, in the middle)
+                        z0 = [np.array([0.0, 1e-4]), np.array([1e-4, 0.0]),
+                              np.array([2e-4, 0.0, 1e-4])][i % 3]
                         am0 = frclim.calcAM([x if x is None else np.array(x) if not
                                              np.isscalar(x) else x for x in f["arg"]],
-                                            np.array([0.0, 1e-4]))
+                                            z0.copy())
             except Exception as e:
                 sh.violation("exception:calcAM-zero-hz", case, {"exc": repr(e)[:400]}, tags)
                 continue
-            sh.check_close("AM-zero-hz-vs-rigid-mass", np.asarray(am0)[:, 0, :], Mrb + 0j,
-                           1e-9 * np.abs(Mrb).max(), case, tags)
+            sh.count("cell:zero-hz-position-%d" % int(np.argmin(z0)))
+            sh.check_close("AM-zero-hz-vs-rigid-mass",
+                           np.asarray(am0)[:, int(np.argmin(z0)), :], Mrb + 0j,
+                           1e-9 * np.abs(Mrb).max(), dict(case, zero_hz_at=int(np.argmin(z0))),
+                           tags)
+
+
+def run_defective_chains(sh, np, nt, frclim, routes, sl):
+    """Sources that carry a body through a viscous joint only: m1 --c1-- m2 --k,c-- m3 ...
+    The stiffness null space is larger than the set of undamped rigid-body modes, so 0 is
+    a defective eigenvalue of the modal state matrix.  calcAM is documented to try
+    SolveUnc(pre_eig=True) and, *if SolveUnc fails*, FreqDirect.  Monitor at the hook: a
+    SolveUnc whose eigensolution reported failure (pc.eig_success False) must be followed
+    by a FreqDirect in the same call, and the apparent mass then is the inverse boundary
+    accelerance to direct-solve accuracy.  (Where the eigensolver does not notice the
+    defect the answer is graded by eigenvector conditioning -- C01's domain -- and is not
+    judged here.)"""
+    import warnings
+    nrun = 6 if sh.tier == "quick" else 60
+    for q in range(nrun):
+        r = core.rng(sh.seed, "C15", "defective-chain", sl, q)
+        n = 3 if q % 3 else 4
+        masses = _logu(r, 1.0, 12.0, n)
+        ks = np.concatenate([[0.0], _logu(r, 1e4, 1e5, n - 2)])
+        cs = _logu(r, 1.0, 300.0, n - 1)
+        M = np.diag(masses)
+        K = np.zeros((n, n))
+        C = np.zeros((n, n))
+        for i_, (k_, c_) in enumerate(zip(ks, cs)):
+            for X, v in ((K, k_), (C, c_)):
+                X[i_, i_] += v
+                X[i_ + 1, i_ + 1] += v
+                X[i_, i_ + 1] -= v
+                X[i_ + 1, i_] -= v
+        T = np.zeros((1, n))
+        T[0, n - 1] = 1.0
+        freq = np.sort(_logu(r, 0.3, 40.0, 6))
+        case = {"defective_chain": [sl, q], "masses": masses, "ks": ks, "cs": cs}
+        tags = {"family": "defective-chain", "n": n}
+        sh.case(["defective-chain", sl, q], True, sample=case)
+        routes.last.clear()
+        try:
+            with warnings.catch_warnings():
+                warnings.simplefilter("ignore")
+                with np.errstate(all="ignore"):
+                    am = np.asarray(frclim.calcAM([M.copy(), C.copy(), K.copy(), T.copy()],
+                                                  freq.copy()))
+        except Exception as e:
+            sh.violation("exception:calcAM-defective-chain", case, {"exc": repr(e)[:300]},
+                         tags)
+            continue
+        used = list(routes.last)
+        failed = "SolveUnc:eig-failed" in used
+        sh.count("cell:defective-chain:" + ("eig-failure-reported" if failed
+                                            else "eig-failure-not-noticed"))
+        if not failed:
+            continue
+        sh.count("mon:calcAM-eig-failure-falls-back")
+        if "FreqDirect" not in used[used.index("SolveUnc:eig-failed"):]:
+            sh.violation("calcAM-eig-failure-falls-back", case, {"route": used}, tags)
+        want = np.zeros((1, freq.size, 1), complex)
+        for j, f_ in enumerate(freq):
+            want[:, j, :] = nt.apparent_mass(M, C, K, T, 2 * np.pi * f_)
+        sh.check_close("calcAM-defective-vs-inv-accelerance", am, want,
+                       1e-9 * np.abs(want), case, tags)
 
 
 def run_shard(sh, params):
@@ -955,13 +1068,14 @@ def run_shard(sh, params):
     try:
         sl, ns = params["slice"], params["nslice"]
         npair = NPAIR[sh.tier] // ns
+        run_defective_chains(sh, np, nt, frclim, routes, sl)
         for i in range(sl * npair, (sl + 1) * npair):
             run_pair(sh, np, nt, O, frclim, routes, i)
     finally:
         routes.restore()
 
 
-MANDATORY_MON = ["calcAM-inplace-update", "calcAM-fs-history", "AM-zero-hz-vs-rigid-mass", "A-vs-coupled", "F-vs-coupled", "SAM-vs-inv-accelerance",
+MANDATORY_MON = ["calcAM-eig-failure-falls-back", "calcAM-inplace-update", "calcAM-fs-history", "AM-zero-hz-vs-rigid-mass", "A-vs-coupled", "F-vs-coupled", "SAM-vs-inv-accelerance",
                  "LAM-vs-inv-accelerance", "TAM-eq-SAM-plus-LAM", "R-ratio",
                  "calcAM-pv-vs-inv-accelerance", "calcAM-drm-vs-inv-accelerance",
                  "AM-lowfreq-vs-rigid-mass"]
